@@ -509,7 +509,7 @@ def _where(sheet, url):
 # ========================================================================================
 
 TOP = 'http://h/d/e/top.css'
-LOCS = ['same', 'child', 'parent', 'sibling', 'absolute', 'root', 'scheme']
+LOCS = ['same', 'child', 'parent', 'sibling', 'absolute', 'root', 'rootfile', 'scheme']
 MEDIA = ['', 'print']
 AVAIL = ['present', 'missing']
 CONTENTS = ['rel', 'dotdot', 'dotdot2', 'abs', 'root', 'schemerel', 'qf', 'pct', 'namespace', 'fontface', 'media', 'charset', 'page', 'empty']
@@ -529,6 +529,7 @@ def loc_href(loc, name):
         'sibling': f'../sib/{name}.css',
         'absolute': f'http://o/q/{name}.css',
         'root': f'/x/{name}.css',
+        'rootfile': f'/{name}.css',  # (a file directly in the root directory: its base path is "/", not empty)
         'scheme': f'//h2/y/{name}.css',
     }[loc]
 
